@@ -123,3 +123,21 @@ def register(PROPS, h):
         runs=dict(quick=[native("h-node", "C13")],
                   thorough=[native("h-node", "C13"), native("h-node", "C13", profile="release"), dict(crate="h-node", prop="C13", wrapper="asan", cases=40000, shards=16, label="h-node:C13:asan", timeout=3600)]),
     )
+
+    PROPS["C12"] = dict(
+        title="Repository data is served only to peers allowed to see it",
+        level="exploration",
+        technique="runtime end-to-end monitor: real in-process nodes (runtime, wire, workers, git upload-pack) serving generated repository/policy/visibility configurations; oracle is the harness's own seeded-and-visible predicate over what it installed",
+        rule=("Per case one serving node (default seeding policy block, 1/4 permissive) with 4-6 repositories: public or private with a "
+              "random allow list over the requesters; explicit seed policy allow / explicit block / none; 2-3 requester nodes (allow-listed "
+              "or strangers) connected over real loopback connections. Every requester seeds and fetches every repository in random order "
+              "through Handle::fetch (real worker, real `git upload-pack`); the server's policy is flipped (seed/unseed) at run time before "
+              "1/8 of the requests. Oracle: a request that succeeded, or after which the requester's storage newly contains the "
+              "repository, must be for a repository that is seeded on the server (explicit allow, or none + permissive default) AND "
+              "visible to the requester (public or allow-listed). One-directional: refusing an authorized request is not a violation. "
+              "Non-trivial/distinct = case seed."),
+        assumptions=[TB, "radicle_node::test::environment (heartwood's own e2e scaffolding) spawns the real Runtime per node", "the `git` executable", "loopback networking in the sandbox"],
+        gates=dict(quick={"unauthorized-refused": 200, "authorized-served": 100, "refused.private-not-allowed": 100, "refused.not-seeded": 60},
+                   thorough={"unauthorized-refused": 12000, "authorized-served": 6000}),
+        runs=dict(quick=[native("h-node", "C12")], thorough=[native("h-node", "C12")]),
+    )
